@@ -193,7 +193,7 @@ def _tlc_cmd(module, cfg, workers, metadir, extra, xss="1g", xmx="6g", deque=Fal
                                "-noGenerateSpecTE", "-nowarning", "-config", cfg] + extra + [module]
 
 
-def write_cfg(path, spec="Spec", invariants=(), constants=None, post=None, constraint=None, init=None, next_=None, view=None):
+def write_cfg(path, spec="Spec", invariants=(), constants=None, post=None, constraint=None, init=None, next_=None, view=None, properties=()):
     lines = []
     if init:
         lines += ["INIT " + init, "NEXT " + next_]
@@ -203,6 +203,8 @@ def write_cfg(path, spec="Spec", invariants=(), constants=None, post=None, const
         lines.append("CONSTANT %s = %s" % (k, v))
     for i in invariants:
         lines.append("INVARIANT " + i)
+    for i in properties:
+        lines.append("PROPERTY " + i)
     if constraint:
         lines.append("CONSTRAINT " + constraint)
     if view:
@@ -262,6 +264,8 @@ def tlc_generate(module, cfg_path, out_path, wd, workers=8, simulate=None, env=N
                     st["states"], st["distinct"] = int(m.group(1)), int(m.group(2))
                 if "Invariant " in line and " is violated" in line:
                     st["violated"].append(line.split("Invariant ")[1].split(" ")[0])
+                if "Action property" in line and "violated" in line or "Temporal properties were violated" in line:
+                    st["violated"].append("temporal/action property")
                 if line.startswith("Error:") and "Deadlock" not in line:
                     st["errors"].append(line.strip())
                 if coverage and line.startswith("<") and "module" in line and ": " in line:
@@ -519,7 +523,7 @@ def standard_flow(res, wd, gens, mode, trace_module, nrand, seed, profile="debug
     tot = 0
     for i, g in enumerate(gens):
         cfg = os.path.join(wd, "%s_%d.cfg" % (g["module"], i))
-        write_cfg(cfg, constants=g.get("constants"), invariants=g.get("invariants", []) , constraint=g.get("constraint"))
+        write_cfg(cfg, constants=g.get("constants"), invariants=g.get("invariants", []) , constraint=g.get("constraint"), properties=g.get("properties", ()))
         part = os.path.join(wd, "cases_%d.ndjson" % i)
         st = tlc_generate(g["module"], cfg, part, wd, workers=g.get("workers", gen_workers or NCPU), simulate=g.get("simulate"), timeout=g.get("timeout", 1800))
         if st["violated"]:
